@@ -29,9 +29,9 @@ RULE = (
     "duration; ro.end_time = last story's end; ro.start_time = roEdStart.  Tolerance 1e-6 relative on "
     "floats, 2 us on datetimes (the library sums floats and builds timedeltas).  Non-trivial = >= 3 "
     "stories with >= 2 distinct duration sources, or a post-merge state with >= 2 stories.")
-ASSUMPTIONS = ['durations are finite decimal literals 0 <= d <= 1e6, times ISO-8601, all naive (the stated domain)',
+ASSUMPTIONS = ['durations are finite decimal literals 0 <= d <= 1e6, times ISO-8601, within one running order all naive or all with the same UTC offset',
                'when some story has no duration only per-story durations and explicit times are compared']
-MANDATORY = ['all-timed', 'explicit-start', 'explicit-end', 'no-roEdStart', 'post-merge:reordered',
+MANDATORY = ['aware-times', 'time-without-seconds', 'all-timed', 'explicit-start', 'explicit-end', 'no-roEdStart', 'post-merge:reordered',
              'mixed-sources', 'some-untimed']
 
 
@@ -118,6 +118,11 @@ def _classes(ro_xml):
     es = rc.find('roEdStart')
     if es is None or es.text is None:
         cl.append('no-roEdStart')
+    if any((t.text or '')[-6:-5] in '+-' and ':' in (t.text or '')[-6:] for t in rc.iter()
+           if t.tag in ('roEdStart', 'StoryStarted', 'StoryEnded')):
+        cl.append('aware-times')
+    if any(t.text and len(t.text) == 16 for t in rc.iter() if t.tag in ('StoryStarted', 'StoryEnded')):
+        cl.append('time-without-seconds')
     return sorted(set(cl)), len(xs), len(srcs)
 
 
@@ -176,7 +181,14 @@ def timed_ro(draw):
         stories.append(B.mk_story(f'S{i}', slug='s', timing=tm, body=[B.P('x')]))
     ed = draw(st.sampled_from([None, '', '2020-01-01T12:30:00', '2021-03-04T05:06:07.500000',
                                '2020-01-01T12:30:00', '1999-12-31T23:59:59']))
-    return {'ro_xml': B.tostring(B.envelope(B.ro_create('RO1', stories, ed_start=ed), 5))}
+    xml = B.tostring(B.envelope(B.ro_create('RO1', stories, ed_start=ed), 5))
+    # in a quarter of the documents every time carries the same UTC offset (all aware)
+    zone = draw(st.sampled_from(['', '', '', '+01:00', '-05:30', '+00:00']))
+    if zone:
+        import re
+        xml = re.sub(r'(<(roEdStart|StoryStarted|StoryEnded)>)(\d{4}-\d\d-\d\dT[0-9:.]+)(</)',
+                     lambda m_: m_.group(1) + m_.group(3) + zone + m_.group(4), xml)
+    return {'ro_xml': xml}
 
 
 def shard_vectors(args):
